@@ -10,7 +10,7 @@ from fractions import Fraction
 
 from . import terms as tm
 from .values import (Sym, SInt, SBool, SStr, SReal, SDec, SErr, Obj, SymSeq, Unsupported,
-                     dec_term, is_sym)
+                     dec_term, is_sym, SComplex)
 
 NUMERIC = (SInt, SBool, SReal)
 STRINGY = (SStr, SDec)
@@ -67,6 +67,8 @@ def real_term(v):
         if v != v or v in (float('inf'), float('-inf')):
             raise Unsupported('non-finite float constant')
         return tm.const(Fraction(v))
+    if isinstance(v, SComplex):
+        raise Unsupported('complex arithmetic')
     return tm.mk_to_real(int_term(v))
 
 
@@ -165,10 +167,11 @@ def to_float(interp, v):
         return SReal(tm.mk_to_real(v.t))
     if isinstance(v, SErr):
         interp.raise_(ValueError, 'could not convert string to float')
+    if isinstance(v, SStr):
+        return float_of_text(interp, v)
+    if isinstance(v, SComplex):
+        interp.raise_(TypeError, "float() argument must be a string or a real number, not 'complex'")
     if isinstance(v, (Sym, SymSeq, Obj)):
-        hook = interp.hooks.get('float')
-        if hook:
-            return hook(interp, v)
         raise Unsupported('float() of %r' % (v,))
     try:
         return float(v)
@@ -281,10 +284,7 @@ def num_binop(interp, op, a, b):
             return SInt(tm.mk_div(x, y) if op == '//' else tm.mk_mod(x, y))
     else:
         if interp.float_mode != 'real':
-            hook = interp.hooks.get('float_binop')
-            if hook:
-                return hook(interp, op, a, b)
-            raise Unsupported('float arithmetic in opaque mode')
+            return float_op(interp, op, a, b)
         interp.ctx.ghost.setdefault('assumptions', set()).add('float arithmetic treated as real arithmetic')
         x, y = real_term(a), real_term(b)
         if op == '+':
@@ -319,9 +319,8 @@ def pow_binop(interp, a, b):
     if isinstance(a, int) and not isinstance(a, bool) and a == 2 and is_intlike(b):
         # 2 ** n with symbolic n: uninterpreted pow2 (only used with concrete masks normally)
         raise Unsupported('2 ** symbolic')
-    hook = interp.hooks.get('pow')
-    if hook:
-        return hook(interp, a, b)
+    if interp.float_mode == 'opaque' and is_num(a) and is_num(b):
+        return float_op(interp, '**', a, b)
     raise Unsupported('** on symbolic operands')
 
 
@@ -466,6 +465,8 @@ def band(vs):
 def identical(interp, a, b):
     if isinstance(a, SErr) or isinstance(b, SErr):
         return equal_err(interp, a, b)
+    if isinstance(a, SComplex) or isinstance(b, SComplex):
+        return a is b
     if is_sym(a) or is_sym(b):
         if a is None or b is None:
             return False
@@ -520,7 +521,14 @@ def equal(interp, a, b):
         raise Unsupported('== of %r, %r' % (a, b))
     if ka == 'num' and kb == 'num':
         if isinstance(a, (SReal, float)) or isinstance(b, (SReal, float)):
-            return SBool(tm.mk_eq(real_term(a), real_term(b)))
+            fa, fb = fin_term(a), fin_term(b)
+            e = tm.mk_eq(real_term(a), real_term(b))
+            if not (fa.is_const and fb.is_const):
+                # inf / nan never equal a finite number; two non-finite values: not modelled (uninterpreted)
+                both = tm.mk_and(fa, fb)
+                neither = tm.mk_and(tm.mk_not(fa), tm.mk_not(fb))
+                e = tm.mk_ite(both, e, tm.mk_and(neither, tm.app('nonfinite_eq', (real_term(a), real_term(b)), tm.BOOL)))
+            return e.val if e.is_const else SBool(e)
         return SBool(tm.mk_eq(int_term(a), int_term(b)))
     if ka == 'str' and kb == 'str':
         if isinstance(a, SDec) and isinstance(b, SDec):
@@ -570,6 +578,10 @@ def order(interp, op, a, b):
         else:
             x, y = int_term(a), int_term(b)
         t = {'<': tm.mk_lt(x, y), '<=': tm.mk_le(x, y), '>': tm.mk_lt(y, x), '>=': tm.mk_le(y, x)}[op]
+        fa, fb = fin_term(a), fin_term(b)
+        if not (fa.is_const and fb.is_const):
+            # ordering against inf / nan is not modelled: uninterpreted outcome
+            t = tm.mk_ite(tm.mk_and(fa, fb), t, tm.app('nonfinite_cmp_' + {'<': 'lt', '<=': 'le', '>': 'gt', '>=': 'ge'}[op], (x, y), tm.BOOL))
         return t.val if t.is_const else SBool(t)
     if ka == 'str' and kb == 'str':
         x, y = str_term(interp, a), str_term(interp, b)
@@ -1463,6 +1475,15 @@ _PREFIX = {2: ('0b', '0B'), 8: ('0o', '0O'), 16: ('0x', '0X')}
 _WS = '(re.union (str.to_re " ") (str.to_re "\\u{9}") (str.to_re "\\u{a}") (str.to_re "\\u{b}") (str.to_re "\\u{c}") (str.to_re "\\u{d}"))'
 
 
+_PY_DIGITS = {2: '[01]', 8: '[0-7]', 10: '[0-9]', 16: '[0-9A-F]'}
+_PY_DIGITS_ANY = {2: '[01]', 8: '[0-7]', 10: '[0-9]', 16: '[0-9A-Fa-f]'}
+for _b in (2, 8, 10, 16):
+    tm.register_re('(re.+ %s)' % _DIGIT_CLASS[_b], _PY_DIGITS[_b] + '+')
+    tm.register_re('(re.+ %s)' % _DIGIT_CLASS_ANYCASE[_b], _PY_DIGITS_ANY[_b] + '+')
+tm.register_re('(re.* (str.to_re "0"))', '0*')
+tm.register_re('(re.+ (re.range "0" "9"))', '[0-9]+')
+
+
 def py_int_literal_re(base):
     """SMT regex of the ASCII strings CPython's int(s, base) accepts (base 2, 8, 10, 16)."""
     d = _DIGIT_CLASS_ANYCASE[base]
@@ -1471,8 +1492,13 @@ def py_int_literal_re(base):
         p = '(re.opt (re.++ (re.union (str.to_re "%s") (str.to_re "%s")) (re.opt (str.to_re "_"))))' % _PREFIX[base]
     else:
         p = '(str.to_re "")'
-    return ('(re.++ (re.* %s) (re.opt (re.union (str.to_re "+") (str.to_re "-"))) %s %s (re.* %s))'
-            % (_WS, p, body, _WS))
+    r = ('(re.++ (re.* %s) (re.opt (re.union (str.to_re "+") (str.to_re "-"))) %s %s (re.* %s))'
+         % (_WS, p, body, _WS))
+    d_ = _PY_DIGITS_ANY[base]
+    pre = ('(0[%s%s]_?)?' % _PREFIX[base][0][1] + _PREFIX[base][1][1]) if False else (
+        '(0[%s%s]_?)?' % (_PREFIX[base][0][1], _PREFIX[base][1][1]) if base in _PREFIX else '')
+    tm.register_re(r, r'[ \t\n\x0b\x0c\r]*[+-]?%s%s+(_%s+)*[ \t\n\x0b\x0c\r]*' % (pre, d_, d_))
+    return r
 
 
 def digits_term(interp, base, n, upper=True):
@@ -1569,9 +1595,169 @@ def str_zfill(interp, s, k):
     return SStr(tm.mk_ite(tm.mk_le(kt, n), t, tm.mk_concat(z, t)))
 
 
+def _f(x):
+    return float(x)
+
+
+def _fr(v):
+    return Fraction(v) if math.isfinite(v) else Fraction(0)
+
+
+def _ovf(op):
+    def g(x, y):
+        try:
+            return not math.isfinite(op(_f(x), _f(y)))
+        except OverflowError:
+            return True
+        except ZeroDivisionError:
+            return False
+    return g
+
+
+def _rop(op):
+    def g(x, y):
+        try:
+            r = op(_f(x), _f(y))
+        except (OverflowError, ZeroDivisionError):
+            return Fraction(0)
+        if isinstance(r, complex):
+            return Fraction(0)
+        return _fr(r)
+    return g
+
+
 REAL_FUNS_EXTRA = {
+    'fadd': _rop(_op.add), 'fsub': _rop(_op.sub), 'fmul': _rop(_op.mul), 'fdiv': _rop(_op.truediv),
+    'fpow': _rop(_op.pow),
+    'fadd_overflows': _ovf(_op.add), 'fsub_overflows': _ovf(_op.sub), 'fmul_overflows': _ovf(_op.mul),
+    'fdiv_overflows': _ovf(_op.truediv), 'pow_overflows': _ovf(_op.pow),
+    'float_of': lambda s: _fr(float(s)),
     'udigits2': lambda n: bin(n)[2:], 'udigits8': lambda n: oct(n)[2:], 'udigits16': lambda n: hex(n)[2:].upper(),
     'ldigits16': lambda n: hex(n)[2:], 'zeros': lambda k: '0' * max(k, 0),
     'parse2': lambda s: int(s, 2), 'parse8': lambda s: int(s, 8), 'parse16': lambda s: int(s, 16),
     'parse10': lambda s: int(s, 10),
 }
+
+
+# ----------------------------------------------------------------------------------
+# opaque float arithmetic (C02 / C11): results are uninterpreted functions of the operands; only
+# the exception / result-type behaviour of CPython floats is axiomatised:
+#   x / 0.0 raises ZeroDivisionError;  0.0 ** negative raises ZeroDivisionError;
+#   negative ** non-integer is a complex;  ** may raise OverflowError;  + - * / may overflow to inf
+
+_FNAME = {'+': 'fadd', '-': 'fsub', '*': 'fmul', '/': 'fdiv', '**': 'fpow', '//': 'ffloordiv', '%': 'fmod'}
+
+
+def fin_term(v):
+    if isinstance(v, SReal) and v.fin is not None:
+        return v.fin
+    return tm.TRUE
+
+
+def float_op(interp, op, a, b):
+    ctx = interp.ctx
+    ctx.ghost.setdefault('assumptions', set()).add(
+        'float arithmetic opaque: results of + - * / ** are uninterpreted; CPython exception/result-type behaviour axiomatised')
+    x, y = real_term(a), real_term(b)
+    zero = tm.const(Fraction(0))
+    both = tm.mk_and(fin_term(a), fin_term(b))
+    if not (both.is_const and both.val) and not ctx.branch(both):
+        # an operand is inf / nan: no CPython exception except division by an exact zero; the result and
+        # its finiteness are left uninterpreted (e.g. 1.0 ** nan == 1.0, x / inf == 0.0)
+        if op in ('/', '//', '%') and ctx.branch(tm.mk_and(fin_term(b), tm.mk_eq(y, zero))):
+            interp.raise_(ZeroDivisionError, 'float division by zero')
+        nm = _FNAME[op] + '_nonfinite'
+        return SReal(tm.app(nm, (x, y), tm.REAL), tm.app(nm + '_isfinite', (x, y), tm.BOOL))
+    if op in ('/', '//', '%'):
+        if ctx.branch(tm.mk_eq(y, zero)):
+            interp.raise_(ZeroDivisionError, 'float division by zero')
+    if op == '**':
+        if ctx.branch(tm.mk_and(tm.mk_eq(x, zero), tm.mk_lt(y, zero))):
+            interp.raise_(ZeroDivisionError, '0.0 cannot be raised to a negative power')
+        if ctx.branch(tm.mk_and(tm.mk_lt(x, zero), tm.mk_not(tm.mk_is_int(y)))):
+            return SComplex(tm.app('cpow', (x, y), 'Cx'))
+        if ctx.branch(tm.app('pow_overflows', (x, y), tm.BOOL)):
+            interp.raise_(OverflowError, '(34, Numerical result out of range)')
+        r = tm.app('fpow', (x, y), tm.REAL)
+        key = ('fpow', r)
+        if key not in ctx.dec_seen:
+            ctx.dec_seen.add(key)
+            ctx.axioms.append(tm.mk_implies(tm.mk_eq(y, zero), tm.mk_eq(r, tm.const(Fraction(1)))))      # x ** 0 == 1.0
+            ctx.axioms.append(tm.mk_implies(tm.mk_and(tm.mk_eq(x, zero), tm.mk_lt(zero, y)), tm.mk_eq(r, zero)))
+        return SReal(r, tm.mk_and(fin_term(a), fin_term(b)))
+    name = _FNAME[op]
+    r = tm.app(name, (x, y), tm.REAL)
+    fin = tm.mk_and(fin_term(a), fin_term(b), tm.mk_not(tm.app(name + '_overflows', (x, y), tm.BOOL)))
+    return SReal(r, fin)
+
+
+_PLAIN_NUM = r'[ \t\n\x0b\x0c\r]*[+-]?([0-9]+\.?[0-9]*|\.[0-9]+)([eE][+-]?[0-9]+)?[ \t\n\x0b\x0c\r]*'
+_PY_FLOAT = (r'[ \t\n\x0b\x0c\r]*[+-]?((([0-9]+(_[0-9]+)*)\.?([0-9]+(_[0-9]+)*)?|\.[0-9]+(_[0-9]+)*)([eE][+-]?[0-9]+(_[0-9]+)*)?'
+             r'|[iI][nN][fF]([iI][nN][iI][tT][yY])?|[nN][aA][nN])[ \t\n\x0b\x0c\r]*')
+_PY_FLOAT_NONFINITE = r'[ \t\n\x0b\x0c\r]*[+-]?([iI][nN][fF]([iI][nN][iI][tT][yY])?|[nN][aA][nN])[ \t\n\x0b\x0c\r]*'
+
+
+def float_of_text(interp, v):
+    """float(text) for ASCII text: acceptance = CPython's float literal grammar (assumption validated by
+    sampling); the value is an uninterpreted function of the text."""
+    from .regex2smt import regex_to_smt
+    ctx = interp.ctx
+    t = str_term(interp, v)
+    ctx.ghost.setdefault('assumptions', set()).add(
+        'CPython float(text) accepts exactly the ASCII float-literal grammar (digits with single underscores, inf/nan); value uninterpreted')
+    ok = tm.T('str.in_re', (t, tm.T('re', (), 'RegLan', regex_to_smt(_PY_FLOAT))), tm.BOOL)
+    if ctx.branch(ok):
+        nonfin = tm.T('str.in_re', (t, tm.T('re', (), 'RegLan', regex_to_smt(_PY_FLOAT_NONFINITE))), tm.BOOL)
+        return SReal(tm.app('float_of', (t,), tm.REAL), tm.mk_not(nonfin))
+    interp.raise_(ValueError, 'could not convert string to float')
+
+
+def _isfinite(interp, v, *a, **k):
+    if isinstance(v, SReal):
+        t = fin_term(v)
+        return t.val if t.is_const else SBool(t)
+    if isinstance(v, (SInt, SBool)):
+        return True
+    if isinstance(v, SComplex):
+        t = tm.app('complex_isfinite', (v.t,), tm.BOOL)
+        return SBool(t)
+    if isinstance(v, (SStr, SDec, SErr)) or v is None:
+        interp.raise_(TypeError, "ufunc 'isfinite' not supported for the input types")
+    if is_sym(v):
+        raise Unsupported('isfinite of %r' % (v,))
+    import numpy as np
+    try:
+        return bool(np.isfinite(v))
+    except Exception as ex:
+        interp.raise_(type(ex), *ex.args)
+
+
+def _register_numpy():
+    import numpy as np
+    BUILTINS[np.isfinite] = _isfinite
+    BUILTINS[math.isfinite] = _isfinite
+
+    def _np_power(interp, x, y):
+        """np.power on python floats: like ** but never raises: nan for negative ** non-integer,
+        inf on overflow and for 0 ** negative."""
+        if not (is_num(x) and is_num(y)):
+            raise Unsupported('np.power on %r, %r' % (x, y))
+        if not (is_sym(x) or is_sym(y)):
+            return np.power(x, y)
+        a, b = real_term(x), real_term(y)
+        zero = tm.const(Fraction(0))
+        r = tm.app('fpow', (a, b), tm.REAL)
+        bad = tm.mk_or(tm.mk_and(tm.mk_lt(a, zero), tm.mk_not(tm.mk_is_int(b))),
+                       tm.mk_and(tm.mk_eq(a, zero), tm.mk_lt(b, zero)),
+                       tm.app('pow_overflows', (a, b), tm.BOOL))
+        key = ('fpow', r)
+        if key not in interp.ctx.dec_seen:
+            interp.ctx.dec_seen.add(key)
+            interp.ctx.axioms.append(tm.mk_implies(tm.mk_eq(b, zero), tm.mk_eq(r, tm.const(Fraction(1)))))
+            interp.ctx.axioms.append(tm.mk_implies(tm.mk_and(tm.mk_eq(a, zero), tm.mk_lt(zero, b)), tm.mk_eq(r, zero)))
+        interp.ctx.ghost.setdefault('assumptions', set()).add('np.power(float, float): nan/inf exactly where float ** raises or is complex')
+        return SReal(r, tm.mk_and(fin_term(x), fin_term(y), tm.mk_not(bad)))
+    BUILTINS[np.power] = _np_power
+
+
+_register_numpy()
